@@ -135,7 +135,7 @@ def build(path, t, v, rng):
     query = "store %s %s %d" % (mpath, t, v)
     if p in ("decl", "for-init"):
         if p == "for-init":
-            M = ["(for ((decl 0 0 %s 1 %d)) (bin < (v 1) %d) ((asg (v 1) (bin + (v 1) 1))) ((print 1 (bin + (v 1) 0)) (break)))" % (t, v, I64[1])]
+            M = ["(for ((decl 0 0 %s 1 %d)) 1 ((asg (v 1) (bin + (v 1) 1))) ((print 1 (bin + (v 1) 0)) (break)))" % (t, v)]
         else:
             if how == "lit":
                 M = ["(decl 0 0 %s 1 %d)" % (t, v)]
@@ -314,12 +314,14 @@ def mixed_program(rng):
     def val(t):
         lo, hi = RANGES[t]
         k = rng.random()
-        if k < 0.55:
+        if k < 0.62:
             return rng.choice([lo, hi, lo + 1, hi - 1, 0, 1, -1 if lo < 0 else 2])
-        if k < 0.75:
+        if k < 0.93:
             return rng.randint(lo, hi)
-        if k < 0.9:
-            return rng.choice([lo - 1, hi + 1, -1, lo - rng.randint(1, 300), hi + rng.randint(1, 300)])
+        if k < 0.95 and lo == 0:
+            return rng.choice([-1, -2, -300])           # clamped, the run goes on
+        if k < 0.985:
+            return rng.choice([lo - 1, hi + 1, lo - rng.randint(1, 300), hi + rng.randint(1, 300)])
         return rng.randint(-2**40, 2**40)
 
     def lit(v):
@@ -353,11 +355,14 @@ def mixed_program(rng):
         if k < 0.3:
             M.append("(asg (v %d) %s)" % (x, lit(val(t))))
         elif k < 0.45:
-            y, _ = rng.choice(cells)
+            # from another cell: mostly one whose type is not wider than the target's
+            lo, hi = RANGES[t]
+            fits = [c for c in cells if RANGES[c[1]][0] >= lo and RANGES[c[1]][1] <= hi]
+            y, _ = rng.choice(fits if fits and rng.random() < 0.8 else cells)
             M.append("(asg (v %d) (v %d))" % (x, y))
         elif k < 0.65:
             op = rng.choice(["+", "-", "*"])
-            d = rng.choice([1, 2, -1, 3, 100, 255, 256, 65535, 65536]) if op != "*" else rng.choice([2, -1, 3, 16, 256])
+            d = rng.choice([1, 1, 2, -1, -1, 3, 100, 255, 65535]) if op != "*" else rng.choice([1, 2, -1, -1, 3])
             M.append("(casg %s (v %d) %d)" % (op, x, d))
         elif k < 0.8:
             M.append("(asg (v %d) (call 1 %s))" % (carrier, lit(val(pt))))
